@@ -32,7 +32,7 @@ func ruleText(p string) string {
 func assumptions(p string) []string {
 	a := []string{
 		"the simulated gtp5g kernel (simkernel) follows the netlink format and ADD/DEL/GET semantics as read from go-gtp5gnl and gtp5g (a multi-report query naming a missing URR fails as a whole; a reply must fit 7856 bytes); it is a model, not the kernel module",
-		"control-plane node ids are IPv4 literals (FQDN node ids need a resolver)",
+		"name resolution is simulated: FQDN node ids resolve instantly from the simulator's zone or fail with no-such-host; resolver latency and time-outs are not modelled",
 		"seeded search samples schedules, inputs and fault positions; a clean batch is evidence, not proof",
 		"go-pfcp, go-gtp5gnl, go-genl and the kept half of go-nl run as shipped and are part of the system under test, not of the oracle",
 	}
